@@ -239,8 +239,8 @@ Definition zero_val (f : trigfn) : option Z :=
      csc: 1 / T[i]      sec: 1 / T[(i+6) mod 24]  cot: T[(i+6) mod 24] / T[i]      (T = sin_table) *)
 Inductive tres :=
 | RVal (z : Z)
-| RArg (sign : Z) (a : expr)
-| RRecip (sign : Z) (a : expr)
+| RArg (sign : Z) (g : trigfn) (a : expr)       (* g(G^-1(a)) -> a *)
+| RRecip (sign : Z) (g : trigfn) (a : expr)     (* g(H^-1(a)) -> 1/a, H the reciprocal of g *)
 | RTab (sign : Z) (f : trigfn) (index : Z)
 | RFun (sign : Z) (f : trigfn) (a : lin)
 | RUninit                        (* the C++ code would read an uninitialised index *)
@@ -288,8 +288,8 @@ Section Step.
   Definition ctor_inv (f : trigfn) (sg : Z) (arg : lin) : tres :=
     match as_f1 arg with
     | Some (code, a) =>
-        if (code =? inv_direct f)%N then RArg sg a
-        else if (code =? inv_recip f)%N then RRecip sg a
+        if (code =? inv_direct f)%N then RArg sg f a
+        else if (code =? inv_recip f)%N then RRecip sg f a
         else ctor_go f sg arg
     | None => ctor_go f sg arg
     end.
